@@ -13,49 +13,49 @@ CLAIMED = {
          "Frames the library's own encoder never emits: every permutation of property subsets <=3/4, full-set rotations/transpositions/reversal, interleaved repeatable properties, explicit zero values, every short form x all 256 reason codes, boundary lengths; ReadPacket must accept and report the carried values.",
          "frames are validated by the strict specification decoder before use; trusted base mc/spec"),
  "C04": ("model_checking", "exhaustive odometers over raw byte-string families and field-map-driven mutations of a valid corpus; no-panic / packet-xor-error oracle", "3.C04",
-         "All byte strings <=2/3 bytes, 46 first bytes x all bodies <=5/6 over a 12-letter alphabet, every prefix / length-field edit / property insertion / byte substitution / cross-type reinterpretation of ~2.8k valid frames, the frames of the dense strata (all contents, all 256 option bytes), through ReadPacket (framing-level families through seven reader implementations) and all 16 UnmarshalBinary methods.",
+         "All byte strings <=2/3 bytes, 46 first bytes x all bodies <=5/6 over a 12-letter alphabet, every prefix / length-field edit / property insertion / byte substitution / cross-type reinterpretation of ~2.8k valid frames, the frames of the dense strata (all contents, all 256 option bytes), through ReadPacket (framing-level families through nine reader implementations, among them a connection double whose deadline calls fail) and all 16 UnmarshalBinary methods; 256-value sweeps of every byte with a meaning of its own; two long fields at once.",
          "bodies outside the 12-letter alphabet are reached only via mutations of valid frames"),
  "C05": ("model_checking", "same exhaustive input families on a statement-instrumented build: deterministic step meter with budget, retained-size, allocation and scaling oracles", "3.C05",
-         "Termination and proportional work are decided by counting executed statement points (budget 2000+200*len turns a loop into a replayable verdict), retained deep size, allocated bytes and 1k-vs-10k element scaling (identical, distinct and hash-colliding elements); earlier packets must not grow and small frames must not inherit the allocation of large ones; never by wall clock.",
+         "Termination and proportional work are decided by counting executed statement points (budget 2000+200*len turns a loop into a replayable verdict), retained deep size, allocated bytes and 1k-vs-10k element scaling (identical, distinct and hash-colliding elements); earlier packets must not grow and small frames must not inherit the allocation of large ones; lists wider than 64/128 KiB, descending and reserved-bit elements; 300 MiB (and every mined process-wide limit) of big frames decoded in one process before small ones, every call under a watchdog for calls that wait instead of compute; never by wall clock otherwise.",
          "work is measured in statement points of the library as instrumented from the current tree; constants fixed with ~25x margin"),
  "C06": ("model_checking", "explicit enumeration of all frame sequences up to length 2-3 over a ~70-frame alphabet x tails on the real decoder with a counting reader", "3.C06",
-         "Exact consumption (1+|varint|+RL) per call for accepted and rejected frames, history independence, tail independence, earlier packets unchanged, io.EOF after the last frame, for every sequence in the bound, through sixteen reader configurations (ten implementations, six of them also over a source handing over 1-7 bytes per Read); alphabet includes non-minimal and over-long length fields, large malformed frames, a 1.3 MB frame and frames sized by mined constants.",
+         "Exact consumption (1+|varint|+RL) per call for accepted and rejected frames, history independence, tail independence, earlier packets unchanged, io.EOF after the last frame, for every sequence in the bound, through twenty-odd reader configurations (twelve implementations incl. a net.Conn double that can be closed and given deadlines, buffering readers over sources handing over 1-7 bytes per Read, idle reads, first byte alone, data together with io.EOF), with the caller changing every returned packet before reading on, and under every iteration order of every map range met while decoding; alphabet includes non-minimal and over-long length fields, large malformed frames, a 1.3 MB frame and frames sized by mined constants.",
          "fragmentation schedules proper are C07"),
  "C07": ("model_checking", "stateless exploration (choice-driven DFS, deviation bounded) of every Read answer of a scripted io.Reader on the real ReadPacket", "3.C07",
-         "Complete delivery-schedule tree for frames <=10 bytes (incl. zero-length reads and data+EOF), all schedules within a deviation bound for frames up to 2.2 MB, underneath six reader implementations (scripted source, bufio 16/4096/pre-filled, own type with Peek/Discard, LimitedReader, own type with unrelated Len()); contiguous runs through bytes.Buffer/bytes.Reader/strings.Reader; periodic schedules with hundreds of idle reads; each compared with the contiguous execution.",
+         "Complete delivery-schedule tree for frames <=10 bytes (incl. zero-length reads and data+EOF), all schedules within a deviation bound for frames up to 2.2 MB, underneath eight reader implementations (scripted source, bufio 16/4096/pre-filled, own type with Peek/Discard, LimitedReader, own type with unrelated Len(), net.Conn double); contiguous runs through bytes.Buffer/bytes.Reader/strings.Reader; periodic schedules with hundreds of idle reads, link-sized segments and first-byte-alone schedules; each compared with the contiguous execution.",
          "zero-length reads bounded per execution; frame contents from the stream corpus"),
  "C08": ("fault_enumeration", "exhaustive fault enumeration: every cut offset x {EOF, injected error} x deviation-bounded fragmentations of the delivered prefix, on the real ReadPacket", "3.C08",
-         "Every proper prefix of every corpus frame followed by stream end or transport failure (five error shapes), also with the error delivered together with the last chunk, through nine reader implementations; big frames (70 KB - 1.3 MB and sizes mined from the tree) cut around powers of two and mined multiples; nil packet, non-nil error, error identity and io.EOF at frame boundary.",
+         "Every proper prefix of every corpus frame followed by stream end or transport failure (six error shapes, nine error texts of real transports and the string constants new in the tree), also with the error delivered together with the last chunk, through eleven reader implementations; big frames (70 KB - 1.3 MB and sizes mined from the tree) cut around powers of two and mined multiples; nil packet, non-nil error, error identity and io.EOF at frame boundary.",
          "fresh error value per execution"),
  "C09": ("model_checking", "exhaustive field-map-driven mutation (all inside-field cuts, 5-byte varints, boolean values 2..255, 229 undefined ids) of a valid corpus; rejection oracle cross-checked by the strict specification decoder", "3.C09",
-         "Every mutant of classes (a)-(d) over ~2.8k valid frames and lenient bases (other protocol versions, non-UTF-8 user properties, other flag nibbles, foreign properties) must be rejected by ReadPacket - read alone, from a bytes.Buffer and as second frame of a burst through bufio - without panic or step-budget overrun.",
+         "Every mutant of classes (a)-(d) over ~2.8k valid frames and lenient bases (other protocol versions, non-UTF-8 user properties, other flag nibbles, foreign properties) (and their conjunctions with a property section that ends right after the identifier, cuts with the property length shortened too, continuation runs of up to 40 bytes, defined identifiers with the top bit set) must be rejected by ReadPacket - read alone, from a bytes.Buffer and as second frame of a burst through bufio - without panic or step-budget overrun.",
          "mutants the specification decoder still accepts are skipped and counted"),
  "C10": ("fault_enumeration", "enumeration of packets x every writer fault point k (accept k bytes then fail) with a scripted io.Writer", "3.C10",
-         "Success path over the whole C01 enumeration (String before and after the first write; six writer implementations) plus malformed-but-constructible, zero values, packets decoded from every frame of V, packets rewritten after setters, wills changed after attach; fault path for every k below the frame length on bases, one-field deviations and ladder packets, five error shapes, recovering writer, own-type writer.",
+         "Success path over the whole C01 enumeration (String before and after the first write; six writer implementations) plus malformed-but-constructible, zero values, packets decoded from every frame of V, packets rewritten after setters, wills changed after attach; fault path for every k up to and including the frame length on bases, one-field deviations and ladder packets, six error shapes, recovering writer with a second WriteTo on it, own-type writer; eight writer implementations (used bufio writers with stale buffer memory, writers by value and func adapters); packets decoded into a second time.",
          "fault behaviour is content independent (single Write of a prepared buffer)"),
  "C12": ("model_checking", "explicit-state breadth-first search over setter histories on real objects with deep-digest state identity, compared with a record-of-fields model in every state", "3.C12",
-         "All setter/adder sequences to depth 3/4 (2/3 from non-constructor states) from four initial states for 15 types + TopicFilter + UserProperties, alphabets with small and mid-range values, argument-identity operations (same slice/pointer handed twice, caller's slice overwritten afterwards, will changed through Will()); every accessor, HasFlag bit and the encoded frame checked in every state.",
+         "All setter/adder sequences to depth 3/4 (2/3 from non-constructor states) from five initial states (among them a value copy of the full packet) for 15 types + TopicFilter + UserProperties, alphabets with small and mid-range values, argument-identity operations (same slice/pointer handed twice, caller's slice overwritten afterwards, will changed through Will()); every accessor, HasFlag bit and the encoded frame checked in every state; every string setter with every special content and every composition of the tokens new in the tree.",
          "model's initial record is the observation of the initial object"),
  "C15": ("model_checking", "exhaustive odometer: all 2^28 values and all byte strings <=3/4 (+5-byte continuations) through hook wrappers, against an independent reference codec", "3.C15",
-         "Encoder minimality and exact decoding for every value; agreement of streaming and in-memory decoder with the reference on every short byte string; the same codec at its public use sites (SUBSCRIBE identifier, PUBLISH identifier lists for every value below 2^24 / all 2^28, remaining length in situ for every short byte string and every value to 20 000 / 70 000), behind buffering readers, and into a reused destination.",
+         "Encoder minimality and exact decoding for every value; agreement of streaming and in-memory decoder with the reference on every short byte string; the same codec at its public use sites (SUBSCRIBE identifier, PUBLISH identifier lists for every value below 2^24 / all 2^28, remaining length in situ for every short byte string and every value to 20 000 / 70 000), behind buffering readers, into a reused destination, followed by 8-17 more bytes in memory, as property length in situ, and with held-but-unwritten values in the packet.",
          "hook wrappers in /repo/verif_hooks.go (build tag verif)"),
  "C16": ("model_checking", "complete enumeration of all 256 first bytes x valid bodies from the specification encoder", "3.C16",
-         "Dispatch by upper nibble, Undefined carries the body, PUBLISH flag accessors, first byte preserved on three consecutive rewrites; bodies: minimal/rich/short forms and every frame of V under every flag nibble; ten reader implementations.", "bodies from mc/spec"),
+         "Dispatch by upper nibble, Undefined carries the body, PUBLISH flag accessors, first byte preserved on three consecutive rewrites; bodies: minimal/rich/short forms, every frame of V under every flag nibble, every specification-valid frame of the dense strata (incl. all 65 536 packet identifiers); eleven reader implementations.", "bodies from mc/spec"),
  "C17": ("model_checking", "full product enumeration of WellFormed inputs (all 256 option bytes per filter, id boundary, QoS x packet id x alias x topic), API-built and wire-decoded", "3.C17",
-         "WellFormed()!=nil iff the documented predicate; String() carries 'malformed!' iff WellFormed()!=nil; plus 43 filter contents x 256 option bytes x placement, topic contents, every flag nibble of a decoded SUBSCRIBE, zero values, and histories with in-place edits through Filters().", "predicates transcribed from the property statement"),
+         "WellFormed()!=nil iff the documented predicate; String() carries 'malformed!' iff WellFormed()!=nil; plus 43 filter contents x 256 option bytes x placement, topic contents, every flag nibble of a decoded SUBSCRIBE, zero values, histories with in-place edits through Filters() and value copies, SUBSCRIBEs of 1..5000 filters with the malformed one at either end or in the middle, subscription identifiers on a PUBLISH.", "predicates transcribed from the property statement"),
  "C18": ("model_checking", "2-safety by exhaustive self-composition: all CONNECT shapes x all pairs of equally long credential contents, Dump and String compared", "3.C18",
-         "49 content instances (17 kinds incl. ill-formed UTF-8) per (shape, length) must render identically for 12k shapes x lengths 1,2,9 (+12 further lengths on bases), API-built and wire-decoded; every 3/4-call setter history (incl. UnmarshalBinary into the packet) under every assignment of two contents to its credential calls; magic auth methods / client ids mined from the tree.", "only Dump and String are in scope"),
+         "49 content instances (17 kinds incl. ill-formed UTF-8) per (shape, length) must render identically for 12k shapes x lengths 1,2,9 (+12 further lengths on bases), API-built and wire-decoded; every 3/4-call setter history (incl. UnmarshalBinary into the packet) under every assignment of two contents to its credential calls; magic values mined from the tree in auth method, client id, will topic (will attached before and after the credentials), response topic, user property; twenty real credential formats (JWT, bearer, URL user info, PEM, keys).", "only Dump and String are in scope"),
  "C11": ("model_checking", "exhaustive exploration of map-iteration orders through a build-overlay seam (every permutation, plus independent per-range orders within a deviation bound) and explicit-state self-loop search for read-only operations by deep digest", "3.C11",
-         "Every ordering Go may choose for every map range executed by WriteTo/String/Dump must give identical output (targets: bases, presence deviations, every boundary value of every field incl. 17-element lists with repeats, wills changed after attach); every sequence <=3 of {WriteTo,String,Dump,WellFormed,accessors} must leave bytes, accessors and renderings unchanged (decided through the concrete-state digest); free-running cross-process fingerprint as cross-check.",
+         "Every ordering Go may choose for every map range executed by WriteTo/String/Dump must give identical output (targets: bases, presence deviations, every boundary value of every field incl. 17-element lists with repeats, wills changed after attach); every sequence <=3 of {WriteTo,String,Dump,WellFormed,accessors} must leave bytes, accessors and renderings unchanged (decided through the concrete-state digest); every target also written to seven other writer implementations (used bufio writers); a writer that fails after one byte as a sixth read-only operation; every string field with every special content; free-running cross-process fingerprint as cross-check.",
          "map order is the only runtime order nondeterminism in sequential Go; other sources are scanned for statically and reported"),
  "C13": ("model_checking", "statement-level transient-write monitor by deep digest (decides race freedom under a static no-synchronisation gate) plus preemption-bounded exhaustive schedule exploration under a cooperative scheduler on the real code; race detector as secondary pass", "3.C13",
-         "Any write to shared state by a read-only operation at any statement point is found for all 15 types x field deviations x operations; all schedules with <=1/2 preemptions of 2-3 goroutines over ~55 scenarios (shared built and decoded packets, reads of valid, foreign-property and rejected frames, segmented two-stream reads and slow-writer writes without and with an earlier fault, scheduling points inside the caller's Read/Write) must reproduce the sequential outputs.",
+         "Any write to shared state by a read-only operation at any statement point is found for all 15 types x field deviations (built from New and from the zero value) x operations, for packets decoded from every frame of V and for every string field with every special content; all schedules with <=1/2 preemptions of 2-3 goroutines over ~60 scenarios (shared built and decoded packets, reads of valid, foreign-property and rejected frames, segmented two-stream reads and slow-writer writes without and with an earlier fault, scheduling points inside the caller's Read/Write) must reproduce the sequential outputs.",
          "statement granularity; race detector silence decides nothing; gate failure downgrades the digest monitor to advisory (observation changes of shared packets and schedule/race results still decide)"),
  "C14": ("model_checking", "explicit enumeration of decode/scribble/encode/render/set histories over a pool of real packets and a reused buffer, with bystander snapshots and alias analysis of the concrete object graphs", "3.C14",
-         "All operation sequences <=3/4 over ~125 operations (decode by ReadPacket / UnmarshalBinary into zero, constructor-made and used packets, forward, scribble, encode, render, set): bystanders unchanged, decodes history independent and not blended with old values, constructors history independent, no mutable memory shared between packets or with the caller's buffer; cache-pressure histories of 3 x N decodes of pairwise distinct frames.",
+         "All operation sequences <=3/4 over ~170 operations (decode by ReadPacket / UnmarshalBinary into zero, constructor-made and used packets, forward, value copy, mq.Pub from a shared string, scribble, encode, render, set): bystanders unchanged, decodes history independent and not blended with old values, constructors history independent, no mutable memory shared between packets or with the caller's buffer; cache-pressure histories of 3 x N decodes of pairwise distinct frames.",
          "strings are immutable and may be shared"),
  "C19": ("model_checking", "exhaustive enumeration of packet values (zero/constructor values, every state of the C12 setter search, every packet accepted from the C04 input families, all 256 values of every rendered byte) rendered under a step budget", "3.C19",
-         "String, Dump, WellFormed, WriteTo(discard) never panic nor exceed the step budget on any enumerated value (incl. every packet decoded from the dense strata: lengths, contents x reason codes, filter contents x option bytes, list lengths).",
+         "String, Dump, WellFormed, WriteTo(discard) never panic nor exceed the step budget on any enumerated value (incl. every packet decoded from the dense strata: lengths, contents x reason codes, filter contents x option bytes, related filter lists, list lengths; every string setter with every special and mined content); Dump and String of one packet return while a Dump of another is held inside a stalled writer.",
          "budget = statement points on the instrumented build"),
 }
 
